@@ -161,10 +161,11 @@ def text_agrees(argv, bd, category, subcategory, unknown_desc, c, ctx, what):
         out = r.out + r.err
         if 'Traceback' in out or r.code != 0:
             raise Violation(f'`tally explain {" ".join(fmt + argv[:-1])}` failed (exit {r.code}) where the JSON format succeeds:\n{out[-900:]}{ctx}', c, 'explain-text-crash')
+        # the layout of the text renderings is not specified: the reported category and subcategory only have to appear in them
         if unknown_desc:
-            ok = 'Unknown merchant' in out
+            ok = 'nknown' in out
         else:
-            ok = f'{category} > {subcategory}' in out or (f'category: {category}' in out and f'subcategory: {subcategory}' in out)
+            ok = (not category or category in out) and (not subcategory or subcategory in out)
         if not ok:
             raise Violation(f'{what}: the {"markdown" if fmt else "text"} output does not report {category!r} > {subcategory!r} (unknown={unknown_desc}):\n{out[:900]}{ctx}', c,
                             'explain-text')
